@@ -43,6 +43,8 @@ def classify(f):
     nt = f["meta"]["settings"]["num_tune"]
     d = ev.get("draw")
     reasons = []
+    if ev.get("e") == "reset" and not ev.get("constok", True):
+        return "schedule_constants_are_not_the_configured_ones"
     if ev.get("e") != "adapt":
         return "unexplained:%s" % ev.get("e")
     if ev["ptuning"] != (d < nt):
